@@ -161,7 +161,8 @@ theorem find_eq (s : PQ π) (key : Nat → Bool) (rm : Bool) :
       · cases hl : s.pq.getLast? with
         | none => simp_all
         | some last =>
-          simp only [listPop, hl, PQ.replaceWithTail, if_true]
+          simp only [listPop, hl, PQ.replaceWithTail, if_true, if_false, Bool.not_true, Bool.not_false,
+            Bool.false_eq_true]
           by_cases hj : j = 0
           · -- the tail: `pop()`, sequence reset when that emptied the queue
             have hj' : (j != 0) = false := by simp [hj]
